@@ -139,6 +139,12 @@ func (c *ProcChan) WaitStop() {
 func (c *ProcChan) addCallCtx(ctx context.Context, proc Proc) (*procChanCtxT, error) {
 	var procCtx = newProcChanCtx(ctx, proc)
 	select {
+	case <-c.stopChan:
+		// stopped: never enqueue, even if the channel still has room
+		return procCtx, ErrClosed
+	default:
+	}
+	select {
 	case c.ch <- procCtx:
 		return procCtx, nil
 	case <-c.stopChan:
